@@ -16,7 +16,7 @@ ID = 'C13'
 LEVEL = 'model_checking'
 TECHNIQUE = ('explicit-state bfs over pure-AST mutation histories (states de-duplicated on the dump of the edited AST) executed on '
              'the real mark()/reconcile(), every result judged by CPython (unparse->parse of the edited AST) and C01')
-LEVEL_TEXT = ('every mutation of the alphabet at every position of 54 programs (depth 1; mutations incl. wrapping a statement into a new block and hoisting a block's body), every pair of mutations (depth 2) on 12 programs '
+LEVEL_TEXT = ('every mutation of the alphabet at every position of 54 programs (depth 1; mutations incl. wrapping a statement into a new block and hoisting the body of a block), every pair of mutations (depth 2) on 12 programs '
               'and a second mark/mutate/reconcile round are executed on the real code; results are compared structurally with the '
               'edited AST and untouched statements are checked byte for byte')
 LEVEL_NOTE = ('trusted: CPython ast.unparse/parse as the normal form of the edited AST; a statement counts as untouched only if no '
